@@ -348,3 +348,21 @@ func (x *Exec) loopBackEdge(st *State, fn *ssa.Function, head *ssa.BasicBlock, l
 		x.note("loop %d of %s has no decreases clause: termination not proved", l.N, fnName(fn))
 	}
 }
+
+// innermost returns the innermost natural loop containing b (nil if none).
+func (fi *FuncInfo) innermost(b *ssa.BasicBlock) *Loop {
+	var best *Loop
+	for _, l := range fi.loops {
+		if l.Blocks[b] && (best == nil || len(l.Blocks) < len(best.Blocks)) {
+			best = l
+		}
+	}
+	return best
+}
+
+func loopHeadOf(fi *FuncInfo, b *ssa.BasicBlock) *ssa.BasicBlock {
+	if l := fi.innermost(b); l != nil {
+		return l.Head
+	}
+	return b
+}
